@@ -88,6 +88,7 @@ static _Bool rt_solo;               /* solo turn: the running thread is never pr
 #define RT_YIELD() (!rt_solo && nondet_bool())
 static _Bool rt_block;
 static _Bool rt_blocked[RT_NSLOTS];
+static _Bool rt_ever_waited[RT_NSLOTS];   /* the thread executed a busy-wait hint or blocked in a primitive at least once */
 static _Bool rt_spun[RT_NSLOTS];      /* last turn ended in a busy-wait hint */
 static _Bool rt_active[RT_NSLOTS];
 static int rt_cur;
@@ -290,6 +291,19 @@ static uint32_t P_compat_futex_async(void *a, uint32_t op, uint32_t v, void *t, 
 static uint32_t P_compat_futex_noasync(void *a, uint32_t op, uint32_t v, void *t, void *a2, uint32_t v3) {
   (void)a; (void)op; (void)v; (void)t; (void)a2; (void)v3;
   RT_ASSERT(0, "compat_futex_noasync reached but not modelled in this obligation"); return 0; }
+
+/* workqueue entry points (src/workqueue.c is a separate TU): reached only by obligations about lazy resize, which model them */
+#ifndef RT_HAVE_WORKQUEUE
+static void P_urcu_workqueue_queue_work(void *wq, void *work, void *fn) { (void)wq; (void)work; (void)fn; RT_ASSERT(0, "urcu_workqueue_queue_work reached but not modelled in this obligation"); RT_ASSUME(0); }
+static void P_urcu_workqueue_flush_queued_work(void *wq) { (void)wq; RT_ASSERT(0, "urcu_workqueue_flush_queued_work reached but not modelled"); RT_ASSUME(0); }
+static void P_urcu_workqueue_destroy(void *wq) { (void)wq; RT_ASSERT(0, "urcu_workqueue_destroy reached but not modelled"); RT_ASSUME(0); }
+static void *P_urcu_workqueue_create(uint64_t f, uint32_t cpu, void *priv, void *a, void *b, void *c, void *d, void *e, void *g, void *h) {
+  (void)f; (void)cpu; (void)priv; (void)a; (void)b; (void)c; (void)d; (void)e; (void)g; (void)h; RT_ASSERT(0, "urcu_workqueue_create reached but not modelled"); RT_ASSUME(0); return 0; }
+static void P_urcu_workqueue_pause_worker(void *wq) { (void)wq; RT_ASSERT(0, "urcu_workqueue_pause_worker not modelled"); }
+static void P_urcu_workqueue_resume_worker(void *wq) { (void)wq; RT_ASSERT(0, "urcu_workqueue_resume_worker not modelled"); }
+static void P_urcu_workqueue_create_worker(void *wq) { (void)wq; RT_ASSERT(0, "urcu_workqueue_create_worker not modelled"); }
+static void P_urcu_workqueue_wait_completion(void *wq, void *c) { (void)wq; (void)c; RT_ASSERT(0, "urcu_workqueue_wait_completion not modelled"); }
+#endif
 
 /* ------------------------------------------------------------------ primitives: misc environment */
 static uint32_t P_poll(void *fds, uint64_t n, uint32_t ms) { (void)fds; (void)n; (void)ms; return 0; }
